@@ -21,6 +21,10 @@ Scope of the "after further writes" part: `Put`, `Delete`, `Sync` after the merg
 batch id 0).  Batches committed between a merge and its adoption need, in addition, the freshness
 of batch ids (a sealing record written after the merge must not seal records parked before it);
 that argument belongs to C04 and is not repeated here.
+(Closed in `Properties/C01History.lean`: `C06_mergeOut_stable_batch`, `C06_adopt_after_batches` and the
+history theorem `C01_refines_history` cover batch sessions between a merge and its adoption — for
+crash-free histories without any freshness hypothesis, since `Merge` only runs when every batch in
+the log is sealed.)
 -/
 namespace XixiKV.C06
 open XixiKV XixiKV.Frame XixiKV.Record XixiKV.Index XixiKV.Engine XixiKV.Engine.Restart XixiKV.Engine.MergeP
